@@ -233,7 +233,37 @@ func uniformSequenceScenario(ch chainT, depth int, first int) engine.Scenario {
 // ---------------------------------------------------------------------------------------------
 // ringqp.UniformSampler: two buffered samplers (Q then P) on one source
 
-var qpOps = []string{"Read", "ReadNew", "AtLevel(0,0).Read", "AtLevel(1,-1).Read", "AtLevel(-1,1).Read", "AtLevel(2,0).ReadNew", "WithPRNG(second source).Read"}
+// ringqp operations: Read / ReadNew on the base sampler, on the view at EVERY (levelQ, levelP) incl. -1 (that part
+// absent), and on a WithPRNG copy.
+type qpOp struct {
+	name   string
+	lq, lp int  // view levels; base: (2,1)
+	view   bool // through AtLevel(lq,lp)
+	newp   bool // ReadNew instead of Read
+	with   bool // on the WithPRNG(second source) copy
+}
+
+var qpOpTable = func() []qpOp {
+	ops := []qpOp{{"Read", 2, 1, false, false, false}, {"ReadNew", 2, 1, false, true, false}}
+	for lq := -1; lq <= 2; lq++ {
+		for lp := -1; lp <= 1; lp++ {
+			if lq == -1 && lp == -1 {
+				continue
+			}
+			ops = append(ops, qpOp{fmt.Sprintf("AtLevel(%d,%d).Read", lq, lp), lq, lp, true, false, false})
+			ops = append(ops, qpOp{fmt.Sprintf("AtLevel(%d,%d).ReadNew", lq, lp), lq, lp, true, true, false})
+		}
+	}
+	return append(ops, qpOp{"WithPRNG(second source).Read", 2, 1, false, false, true})
+}()
+
+var qpOps = func() []string {
+	var n []string
+	for _, o := range qpOpTable {
+		n = append(n, o.name)
+	}
+	return n
+}()
 
 func ringqpSequenceScenario(depth int, first int) engine.Scenario {
 	name := fmt.Sprintf("uniform/ringqp-sequences/first=%s", qpOps[first])
@@ -254,39 +284,32 @@ func ringqpSequenceScenario(depth int, first int) engine.Scenario {
 			if step > 0 {
 				op = c.Choose(len(qpOps), "op")
 			}
-			lq, lp := 2, 1
+			o := qpOpTable[op]
+			lq, lp := o.lq, o.lp
 			var got ringqp.Poly
 			uq, up := mQ, mP
-			switch op {
-			case 0:
-				got = qp.NewPoly()
-				s.Read(got)
-			case 1:
-				got = s.ReadNew()
-			case 2:
-				lq, lp = 0, 0
-				got = qp.AtLevel(0, 0).NewPoly()
-				s.AtLevel(0, 0).Read(got)
-			case 3:
-				lq, lp = 1, -1
-				got = ringqp.Poly{Q: rQ.AtLevel(1).NewPoly()}
-				s.AtLevel(1, -1).Read(got)
-			case 4:
-				lq, lp = -1, 1
-				got = ringqp.Poly{P: rP.AtLevel(1).NewPoly()}
-				s.AtLevel(-1, 1).Read(got)
-			case 5:
-				lq, lp = 2, 0
-				got = s.AtLevel(2, 0).ReadNew()
-			case 6:
+			smp := s
+			if o.with {
 				if s2 == nil {
 					w := s.WithPRNG(envA2)
 					s2 = &w
 					m2Q, m2P = &refUniform{src: envM2}, &refUniform{src: envM2}
 				}
-				got = qp.NewPoly()
-				s2.Read(got)
-				uq, up = m2Q, m2P
+				smp, uq, up = *s2, m2Q, m2P
+			}
+			if o.view {
+				smp = smp.AtLevel(lq, lp)
+			}
+			if o.newp {
+				got = smp.ReadNew()
+			} else {
+				if lq >= 0 {
+					got.Q = rQ.AtLevel(lq).NewPoly()
+				}
+				if lp >= 0 {
+					got.P = rP.AtLevel(lp).NewPoly()
+				}
+				smp.Read(got)
 			}
 			if lq >= 0 {
 				if got.Q.Level() != lq {
